@@ -579,7 +579,7 @@ def m_auth(hist, rec):
         report(hist, "C08", "breaker_auth", {"variant": var}, "circuit breaker by %s, who is neither the admin nor a monitor (monitors configured: %s)" % (c["sender"], mons), rec)
     # C10 "halting by the admin or any monitor": a CircuitBreaker from the admin or from an account on the monitor list (by
     # the contract's own record and by the history of accepted updates alike) is not refused
-    if var == "circuit_breaker" and c["outcome"] == "err" and not c["funds"] and (
+    if var == "circuit_breaker" and c["outcome"] == "err" and not c["funds"] and c["msg"] == {"circuit_breaker": {}} and c["kind"] != "Parse" and (
             c["sender"] == admin or (c["sender"] in cfg(b)["monitors"] and c["sender"] in mons)):
         report(hist, "C10", "breaker_available", {"who": "admin" if c["sender"] == admin else "monitor"},
                "CircuitBreaker by %s (%s) was refused: %s" % (c["sender"], "the admin" if c["sender"] == admin else "a configured monitor", c["kind"]), rec)
